@@ -13,20 +13,18 @@ Section First.
   Variable U : Z.
   Variable rules : list rule.
   Hypothesis Hwf : Forall (fun r => Forall (wf_box U) (fst r)) rules.
-  Hypothesis Hnonempty : Forall (fun r => fst r <> []) rules.
-  Hypothesis Hn : (length rules <= 64)%nat.
 
   Let n := length rules.
   Let subs := map snd rules.
   Let final := overlay_loop U rules 0 init_map.
-  Let sorted := sort_by_zeros final.
+  Let sorted := sort_by_ones final.
 
   Definition nonzero (e : box * rank) : bool := negb (is_all_zeros (snd e)).
   Definition item_of (e : box * rank) : box * list submap := (fst e, pickw subs (rv (snd e))).
 
   Lemma init_entry_ok : Forall (entry_ok U rules 0) init_map.
   Proof.
-    constructor; [|constructor]. split; [apply wf_box_nil|]. split; [now left|].
+    constructor; [|constructor]. split; [apply wf_box_nil|]. split; [apply rank_ok_nil|].
     intros k Hk. cbn [snd] in Hk. rewrite rbit_nil in Hk. discriminate.
   Qed.
 
@@ -45,13 +43,16 @@ Section First.
           rewrite nth_error_app2 by (rewrite firstn_length; lia). rewrite firstn_length, Nat.min_l by exact Hle.
           now rewrite Nat.sub_diag. }
         assert (Hlt : (i < length rules)%nat) by (apply nth_error_Some; congruence).
-        apply IH; [now apply (skipn_S_tail _ _ _ _ Hsk)|lia|].
-        now apply (step_sound U rules Hwf Hn i reg s). }
+        destruct reg as [|c0 regt].
+        + apply IH; [now apply (skipn_S_tail _ _ _ _ Hsk)|lia|].
+          eapply Forall_impl; [|exact Hm]. intros e. apply entry_ok_mono. lia.
+        + apply IH; [now apply (skipn_S_tail _ _ _ _ Hsk)|lia|].
+          now apply (step_sound U rules Hwf i (c0 :: regt) s). }
     apply (G rules 0%nat init_map); [reflexivity|lia|apply init_entry_ok].
   Qed.
 
   Lemma sorted_perm : Permutation sorted final.
-  Proof. unfold sorted, sort_by_zeros. apply (stable_sort_perm (fun e : box * rank => count_zeros (snd e))). Qed.
+  Proof. unfold sorted, sort_by_ones. apply (stable_sort_perm_d (fun e : box * rank => count_ones (snd e))). Qed.
 
   Lemma sorted_sound : Forall (entry_ok U rules n) sorted.
   Proof.
@@ -59,11 +60,11 @@ Section First.
     pose proof final_sound as H. rewrite Forall_forall in H. now apply H.
   Qed.
 
-  (* an entry's rank fits one word, and names existing rules *)
-  Lemma entry_bits e : entry_ok U rules n e -> forall k, N.testbit (rv (snd e)) k = true -> (k < 64)%N /\ (N.to_nat k < n)%nat.
+  (* the set bits of an entry's rank name existing rules *)
+  Lemma entry_bits e : entry_ok U rules n e -> forall k, N.testbit (rv (snd e)) k = true -> (N.to_nat k < n)%nat.
   Proof.
     intros [_ [_ H]] k Hk. specialize (H (N.to_nat k)). unfold rbit in H. rewrite N2Nat.id in H.
-    destruct (H Hk) as [Hlt _]. unfold n in *. split; lia.
+    destruct (H Hk) as [Hlt _]. exact Hlt.
   Qed.
 
   (* collect_items never panics and lists the non-empty entries in order *)
@@ -74,13 +75,11 @@ Section First.
     inversion Hl as [|? ? He Ht]; subst. unfold nonzero at 1. cbn [snd].
     destruct (is_all_zeros rk) eqn:Ez; cbn [negb]; [now apply IH|].
     destruct He as [Hwb [Hok Hbits]]. cbn [fst snd] in *.
-    destruct Hok as [->|[w ->]]; [discriminate|].
-    assert (Hexp : expand_rank (S (64 * length [w])) subs [w] 0 = Ok (pickw subs w)).
-    { change (64 * length [w])%nat with 64%nat.
-      rewrite (expand_rank_one subs 64 w 0).
+    assert (Hexp : expand_rank (S (64 * length rk)) subs rk 0 = Ok (pickw subs (rv rk))).
+    { rewrite (expand_rank_spec subs (64 * length rk) rk 0 Hok).
       - reflexivity.
-      - apply bits_lt_pow2. intros k Hk. specialize (Hbits (N.to_nat k)). unfold rbit in Hbits. cbn [rv] in Hbits.
-        rewrite N2Nat.id in Hbits. destruct (Hbits Hk) as [Hlt _]. unfold n in Hlt. lia.
+      - unfold rv. replace (N.of_nat (64 * length rk)) with (64 * N.of_nat (length (rev rk)))%N by (rewrite rev_length; lia).
+        apply lv_bound. now apply rank_ok_rev.
       - intros k Hk. specialize (Hbits k Hk). destruct Hbits as [Hlt _]. unfold subs. rewrite map_length. unfold n in Hlt. exact Hlt. }
     rewrite Hexp, (IH Ht). reflexivity.
   Qed.
@@ -125,7 +124,7 @@ Section First.
   Lemma final_complete : complete U rules p n final.
   Proof.
     unfold final, n.
-    apply (loop_inv U rules Hwf Hnonempty Hn p Hexcl rules 0%nat init_map); [reflexivity|lia|apply init_entry_ok|].
+    apply (loop_inv U rules Hwf p Hexcl rules 0%nat init_map); [reflexivity|lia|apply init_entry_ok|].
     exists [], []. split; [now left|]. split.
     - intros a. unfold box_get. cbn [kv_find]. unfold full_range. cbn [fst snd]. specialize (Hd a).
       split.
@@ -175,34 +174,21 @@ Section First.
     { intros k Hk. destruct (Hbits k Hk) as [Hlt Hfk]. apply Hact0; [exact Hlt|now apply Hfk]. }
     (* r0 is not empty, so (b0, r0) is a hit too, and sorts no earlier than e *)
     assert (Hnz0 : nonzero (b0, r0) = true).
-    { unfold nonzero in *. cbn [snd]. rewrite is_all_zeros_rv in * by assumption.
+    { unfold nonzero in *. cbn [snd]. rewrite is_all_zeros_rv in *.
       apply negb_true_iff in Hnz. apply N.eqb_neq in Hnz. apply negb_true_iff. apply N.eqb_neq. intros Hz.
       apply Hnz. apply N.bits_inj_0. intros k. destruct (N.testbit (rv (snd e)) k) eqn:Ek; [|reflexivity].
       apply (rbit_nsubset _ _ Hsub) in Ek. rewrite Hz, N.bits_0 in Ek. discriminate. }
     assert (Hhit0 : hit (b0, r0) = true).
     { unfold hit. rewrite Hnz0. cbn [fst andb]. now apply (in_boxb_in_box U p b0 Hwb0 Hd). }
-    pose proof (find_sorted_min (fun e : box * rank => count_zeros (snd e)) hit sorted e (b0, r0)
-                  (stable_sort_sorted _ final) Hf Hin0 Hhit0) as Hcz.
-    cbn [snd] in Hcz.
-    (* both ranks are single words *)
-    assert (Hw : exists w, snd e = [w]).
-    { destruct Hok as [E|[w E]]; [|now exists w]. unfold nonzero in Hnz. rewrite E in Hnz. discriminate. }
-    assert (Hw0 : exists w0, r0 = [w0]).
-    { destruct Hok0 as [E|[w0 E]]; [|now exists w0]. unfold nonzero in Hnz0. cbn [snd] in Hnz0. rewrite E in Hnz0. discriminate. }
-    destruct Hw as [w Ew]. destruct Hw0 as [w0 ->]. rewrite Ew in *. cbn [rv] in *.
-    rewrite !count_zeros_one in Hcz.
-    assert (Hp64 : (popcount w <= 64)%N).
-    { apply popcount_le_64. intros k Hk. specialize (Hbits (N.to_nat k)). unfold rbit in Hbits. cbn [rv] in Hbits.
-      rewrite N2Nat.id in Hbits. destruct (Hbits Hk) as [Hlt _]. unfold n in Hlt. lia. }
-    assert (Hp64' : (popcount w0 <= 64)%N).
-    { apply popcount_le_64. intros k Hk. specialize (Hbits0 (N.to_nat k)). unfold rbit in Hbits0. cbn [rv] in Hbits0.
-      rewrite N2Nat.id in Hbits0. destruct (Hbits0 Hk) as [Hlt _]. unfold n in Hlt. lia. }
-    destruct (pop_subset w w0 (rbit_nsubset [w] [w0] Hsub)) as [_ Heq].
-    assert (w = w0) by (apply Heq; lia). subst w0.
-    (* so its bits are the firing rules *)
-    intros k Hk. destruct (fires_b (nth k rules ([], []))) eqn:Ef.
+    pose proof (find_sorted_max (fun e : box * rank => count_ones (snd e)) hit sorted e (b0, r0)
+                  (stable_sort_sorted_d _ final) Hf Hin0 Hhit0) as Hcz.
+    cbn [snd] in Hcz. rewrite !count_ones_rv in Hcz by assumption.
+    (* a subset with at least as many elements is the whole set *)
+    destruct (pop_subset (rv (snd e)) (rv r0) (rbit_nsubset _ _ Hsub)) as [_ Heq].
+    specialize (Heq Hcz).
+    intros k Hk. rewrite Heq. destruct (fires_b (nth k rules ([], []))) eqn:Ef.
     - apply (fires_iff k Hk) in Ef. apply (Hact0 k Hk Ef).
-    - destruct (N.testbit w (N.of_nat k)) eqn:Eb; [|reflexivity].
+    - destruct (N.testbit (rv r0) (N.of_nat k)) eqn:Eb; [|reflexivity].
       destruct (Hbits0 k Eb) as [_ Hfk]. specialize (Hfk p Hpb0). apply (fires_iff k Hk) in Hfk. congruence.
   Qed.
 
@@ -218,7 +204,7 @@ Section First.
     pose proof (find_none _ _ Hf _ Hin0) as Hnh. unfold hit in Hnh. cbn [fst] in Hnh.
     assert (Hpb : in_boxb p b0 = true) by (apply (in_boxb_in_box U p b0 Hwb0 Hd); exact (good_in_box U _ _ p b0 Hg0)).
     rewrite Hpb, andb_true_r in Hnh. unfold nonzero in Hnh. cbn [snd] in Hnh. apply negb_false_iff in Hnh.
-    rewrite is_all_zeros_rv in Hnh by exact Hok0. apply N.eqb_eq in Hnh.
+    rewrite is_all_zeros_rv in Hnh. apply N.eqb_eq in Hnh.
     specialize (Hact0 k Hk Hfk). unfold rbit in Hact0. rewrite Hnh, N.bits_0 in Hact0. discriminate.
   Qed.
 
@@ -237,10 +223,10 @@ Section First.
       apply find_some in Ef as [Hin Hhit]. unfold hit in Hhit. apply andb_true_iff in Hhit as [Hnz _].
       pose proof sorted_sound as Hs. rewrite Forall_forall in Hs. pose proof (Hs _ Hin) as He.
       destruct (map snd (filter fires_b rules)) eqn:Em; [|reflexivity]. exfalso.
-      unfold nonzero in Hnz. destruct He as [_ [Hok Hb]]. rewrite is_all_zeros_rv in Hnz by exact Hok.
+      unfold nonzero in Hnz. destruct He as [_ [Hok Hb]]. rewrite is_all_zeros_rv in Hnz.
       apply negb_true_iff, N.eqb_neq in Hnz. apply Hnz. apply N.bits_inj_0. intros k.
       destruct (N.testbit (rv (snd e)) k) eqn:Ek; [|reflexivity]. exfalso.
-      destruct (entry_bits e (Hs _ Hin) k Ek) as [_ Hlt].
+      pose proof (entry_bits e (Hs _ Hin) k Ek) as Hlt.
       specialize (Hbits (N.to_nat k) Hlt). rewrite N2Nat.id, Ek in Hbits.
       assert (Hin' : In (nth (N.to_nat k) rules ([], [])) (filter fires_b rules)).
       { apply filter_In. split; [apply nth_In; exact Hlt|now symmetry]. }
